@@ -167,6 +167,24 @@ pub fn interpret(corpus: &Corpus, opts: &SrcOpts, ch: &Choice, st: &mut Stats) -
       }
     }
   }
+  if ch.inner.index(3) == 0 && !ctx.kinds.is_empty() {
+    // one more matcher: a utility that refers to itself through `has` (recursion over nesting);
+    // its kind caches are computed while the utility is not registered yet
+    let n = ctx.kinds.len();
+    let kind = ctx.kinds[ch.inner.index(n)].clone();
+    let base = ctx.kinds[(ch.inner.index(n * 7 + 1)) % n].clone();
+    let name = format!("m{}urec", matchers.len());
+    let rel = Box::new(Rel {
+      rule: GRule::Any(vec![GRule::Kind(base), GRule::Matches(name.clone())]),
+      stop: if ch.inner.index(2) == 0 { Stop::Neighbor } else { Stop::End },
+      field: None,
+    });
+    matchers.push(MatcherSpec::Rule {
+      rule: GRule::Matches(name.clone()),
+      utils: vec![(name, GRule::Obj(vec![GRule::Kind(kind), GRule::Has(rel)]))],
+    });
+    st.label("recursive_utility_matcher");
+  }
   if matchers.is_empty() {
     st.discard("no usable matcher");
     return None;
